@@ -1,12 +1,4 @@
-mod props;
-mod caps;
-mod mutate;
-mod refcbor;
-mod reqmodel;
-mod respmodel;
-mod types;
-mod run;
-mod util;
+use ctv::{props, refcbor, run};
 
 use run::{Ctx, Tier};
 use serde_json::json;
